@@ -22,7 +22,7 @@ TRUSTED = [
     'clipping at model-parallel degree > 1 is the known finding D10 (clip scale from local shards); transparency is claimed with clipping off or M = 1',
 ]
 THEOREMS = ['split_gather_id', 'gather_split_id', 'reduce_scatter_as_scatter', 'assembled_is_unsharded',
-            'sharded_precondition_is_unsharded', 'clip_sharded_refuted']
+            'sharded_precondition_is_unsharded', 'clip_sharded_refuted', 'sharded_factor_is_unsharded']
 NOTES = 'Model mirrors the code after fixes D6 (fresh receive buffers) and D12 (column-parallel without bias).'
 
 
